@@ -1,6 +1,6 @@
 (* C06: response framing on the parser model carrying the separator fix *)
 From Coq Require Import Bool List NArith ZArith Lia.
-From M Require LexModel MatchModel FmtModel.
+From M Require LexModel MatchModel FmtModel GFmt OpsGen.
 From M Require Import ParserModel.
 Import ListNotations.
 Local Open Scope Z_scope.
@@ -84,6 +84,9 @@ Definition W (c:ctx) : bytes := wb (outp (trace c)).
 Definition Fl (c:ctx) : Z := fl (outp (trace c)).
 Definition delim_bytes (fo:bool) (oc:Z) : bytes := if 0 <? oc then [44%N] else if negb fo then [59%N] else [].
 
+Definition Q_param_array := OpsGen.R_param_array Q Q_refl Q_trans Q_param_int Q_param_fp.
+Definition Q_expr_numlist := OpsGen.R_expr_numlist Q Q_refl (fun c => Q_error_push c (-170) None) (fun c => Q_error_push c (-104) None).
+Definition Q_expr_chanlist := OpsGen.R_expr_chanlist Q Q_refl (fun c => Q_error_push c (-170) None) (fun c => Q_error_push c (-104) None).
 Lemma Q_W c c' : Q c c' -> W c' = W c /\ Fl c' = Fl c.
 Proof. intros (_ & _ & _ & H & _). unfold W, Fl. now rewrite H. Qed.
 Lemma W_write c b : first_output (write c b) = first_output c /\ output_count (write c b) = output_count c /\ arb_rem (write c b) = arb_rem c /\
@@ -128,10 +131,17 @@ Definition op_body (o:op) (c:ctx) (descs:Z -> bytes) : option bytes :=
   | RCHARS t => Some t
   | RBLOCK d => Some (block_header (Z.of_nat (length d)) ++ d)
   | SYSTERR => let '(code, info, _) := syst_err_parts c in Some (err_body code info (descs code))
+  | RI8 v => Some (int_body 32 v 10 true)
+  | RU8 v b => Some (int_body 32 v b false)
+  | RI16 v => Some (int_body 32 v 10 true)
+  | RU16 v b => Some (int_body 32 v b false)
+  | RMNEM t => Some (cstr (length t) t)
+  | RD bits => Some (bz (GFmt.fmt_double 15 bits))
+  | RF bits => Some (bz (GFmt.fmt_float 6 bits))
   | _ => None
   end.
 (* streamed blocks (header and data in separate calls) are treated separately *)
-Definition simple_op (o:op) : bool := match o with RHDR _ | RDATA _ => false | _ => true end.
+Definition simple_op (o:op) : bool := match o with RHDR _ | RDATA _ | RARR _ _ _ => false | _ => true end.
 
 (* effect of one operation on the response state *)
 Definition Step (c c':ctx) (body:option bytes) : Prop :=
@@ -210,6 +220,30 @@ Definition step (o:op) (c:ctx) (descs:Z -> bytes) : ctx * bool :=
       let c1 := emit_empty (upd_err c (cmd_error c) q' (qma c)) in
       (result_error c1 code info (descs code), true)
   | RETERR => (c, false)
+  | RI8 v => (result_int c 32 v 10 true, true)
+  | RU8 v b => (result_int c 32 v b false, true)
+  | RI16 v => (result_int c 32 v 10 true, true)
+  | RU16 v b => (result_int c 32 v b false, true)
+  | RMNEM t => (item c [cstr (length t) t], true)
+  | RD bits => (item c [bz (GFmt.fmt_double 15 bits)], true)
+  | RF bits => (item c [bz (GFmt.fmt_float 6 bits)], true)
+  | ISCMD p =>
+      match cur c with
+      | Some (pat,_,_) => match MatchModel.matchCommand pat p None 0 with MatchModel.Res r _ => (ev c (EvI r), true) end
+      | None => (ev c (EvI false), true)
+      end
+  | RARR size fmt vals => (result_array c size fmt vals, true)
+  | PARR ty cap m =>
+      let '(c1, m1, vals) := param_array (Z.to_nat cap) (array_reader ty) c m [] in
+      (ev c1 (EvP ty (negb m1) (if negb m1 then vals else [])), after_read c1 (negb m1) m)
+  | PEXPRN idx m =>
+      let '(c1, ok, t) := parameter c m in
+      if ok then let '(c2, rep) := expr_numlist c1 t idx in (ev c2 (EvP 19 true rep), true)
+      else (ev c1 (EvP 19 false []), after_read c1 false m)
+  | PEXPRC idx cap m =>
+      let '(c1, ok, t) := parameter c m in
+      if ok then let '(c2, rep) := expr_chanlist c1 t idx cap in (ev c2 (EvP 20 true rep), true)
+      else (ev c1 (EvP 20 false []), after_read c1 false m)
   end.
 Lemma run_script_cons o rest c d :
   run_script (o :: rest) c d = let '(c', go) := step o c d in if go then run_script rest c' d else (c', false).
@@ -226,6 +260,10 @@ Proof.
   - destruct (param_number c m) as [[? ?] ?]; reflexivity.
   - destruct (cur c) as [[[pat tg] sc]|]; [|reflexivity]. destruct (MatchModel.matchCommand _ _ _ _) as [r [a|]]; reflexivity.
   - unfold syst_err_parts. destruct (queue c) as [|[cd i] r]; reflexivity.
+  - destruct (cur c) as [[[pat tg] sc]|]; [|reflexivity]. destruct (MatchModel.matchCommand _ _ _ _) as [r a]; reflexivity.
+  - destruct (param_array _ _ c m []) as [[c1 m1] vals]; reflexivity.
+  - destruct (parameter c m) as [[c1 ok] t]. destruct ok; [destruct (expr_numlist c1 t idx) as [c2 rep]|]; reflexivity.
+  - destruct (parameter c m) as [[c1 ok] t]. destruct ok; [destruct (expr_chanlist c1 t idx cap) as [c2 rep]|]; reflexivity.
 Qed.
 
 Lemma step_spec o c d : simple_op o = true -> Step c (fst (step o c d)) (op_body o c d).
@@ -257,6 +295,25 @@ Proof.
   - destruct (syst_err_parts c) as [[code info] q']. cbn [fst]. eapply Step_Q_l; [|apply Step_result_error].
     eapply Q_trans; [|apply Q_emit_empty]. qr.
   - apply Step_quiet, Q_refl.
+  - apply Step_result_int.
+  - apply Step_result_int.
+  - apply Step_result_int.
+  - apply Step_result_int.
+  - pose proof (Step_item c [cstr (length t) t]) as H. cbn [concat] in H. rewrite app_nil_r in H. exact H.
+  - pose proof (Step_item c [bz (GFmt.fmt_double 15 bits)]) as H. cbn [concat] in H. rewrite app_nil_r in H. exact H.
+  - pose proof (Step_item c [bz (GFmt.fmt_float 6 bits)]) as H. cbn [concat] in H. rewrite app_nil_r in H. exact H.
+  - destruct (cur c) as [[[pat tg] sc]|]; [|apply Step_quiet; now apply Q_ev].
+    destruct (MatchModel.matchCommand _ _ _ _) as [r a]; cbn [fst]; apply Step_quiet; now apply Q_ev.
+  - pose proof (Q_param_array ty (Z.to_nat cap) c m []) as H. destruct (param_array _ _ c m []) as [[c1 m1] vals]; cbn [fst] in *.
+    apply Step_quiet. eapply Q_trans; [exact H|now apply Q_ev].
+  - pose proof (Q_parameter c m) as H. destruct (parameter c m) as [[c1 ok] t]; cbn [fst] in *. destruct ok.
+    + pose proof (Q_expr_numlist c1 t idx) as H2. destruct (expr_numlist c1 t idx) as [c2 rep]; cbn [fst] in *.
+      apply Step_quiet. eapply Q_trans; [exact H|]. eapply Q_trans; [exact H2|now apply Q_ev].
+    + apply Step_quiet. eapply Q_trans; [exact H|now apply Q_ev].
+  - pose proof (Q_parameter c m) as H. destruct (parameter c m) as [[c1 ok] t]; cbn [fst] in *. destruct ok.
+    + pose proof (Q_expr_chanlist c1 t idx cap) as H2. destruct (expr_chanlist c1 t idx cap) as [c2 rep]; cbn [fst] in *.
+      apply Step_quiet. eapply Q_trans; [exact H|]. eapply Q_trans; [exact H2|now apply Q_ev].
+    + apply Step_quiet. eapply Q_trans; [exact H|now apply Q_ev].
 Qed.
 
 (* ---------- the result items of a handler run, and how they appear on the output ---------- *)
@@ -340,6 +397,20 @@ Proof.
   - destruct (cur c) as [[[pat tg] sc]|]; [|reflexivity]. destruct (MatchModel.matchCommand _ _ _ _) as [r [a|]]; reflexivity.
   - destruct (syst_err_parts c) as [[code info] q']. cbn [fst]. eapply C_trans; [|apply C_result_error]. eapply C_trans; [|apply C_Q, Q_emit_empty]. reflexivity.
   - reflexivity.
+  - apply C_result_int.
+  - apply C_result_int.
+  - apply C_result_int.
+  - apply C_result_int.
+  - apply C_item.
+  - apply C_item.
+  - apply C_item.
+  - destruct (cur c) as [[[pat tg] sc]|]; [|reflexivity]. destruct (MatchModel.matchCommand _ _ _ _) as [r a]; reflexivity.
+  - apply (OpsGen.R_result_array C (fun c => eq_refl) C_trans C_result_int C_result_hdr C_result_data).
+  - pose proof (Q_param_array ty (Z.to_nat cap) c m []) as H. destruct (param_array _ _ c m []) as [[c1 m1] vals]; cbn [fst] in *. apply C_Q in H. exact H.
+  - pose proof (Q_parameter c m) as H. destruct (parameter c m) as [[c1 ok] t]; cbn [fst] in *. apply C_Q in H. destruct ok; [|exact H].
+    pose proof (Q_expr_numlist c1 t idx) as H2. destruct (expr_numlist c1 t idx) as [c2 rep]; cbn [fst] in *. apply C_Q in H2. eapply C_trans; [exact H|exact H2].
+  - pose proof (Q_parameter c m) as H. destruct (parameter c m) as [[c1 ok] t]; cbn [fst] in *. apply C_Q in H. destruct ok; [|exact H].
+    pose proof (Q_expr_chanlist c1 t idx cap) as H2. destruct (expr_chanlist c1 t idx cap) as [c2 rep]; cbn [fst] in *. apply C_Q in H2. eapply C_trans; [exact H|exact H2].
 Qed.
 Lemma C_run_script s : forall c d, C c (fst (run_script s c d)).
 Proof.
